@@ -104,6 +104,18 @@ func minimise(b *fsbox, cs Case, class string) Case {
 		x.Entries = append(append([]Entry{}, cur.Entries[:i]...), cur.Entries[i+1:]...)
 		try(x)
 	}
+	// plain regular file instead of a special type
+	for i, e := range cur.Entries {
+		if e.Type != "reg" && !isBaselineEntry(e) {
+			x := cur
+			x.Entries = append([]Entry{}, cur.Entries...)
+			x.Entries[i].Type = "reg"
+			if x.Entries[i].Size == 0 {
+				x.Entries[i].Data = "payload\n"
+			}
+			try(x)
+		}
+	}
 	// simplest delivery route
 	for i, e := range cur.Entries {
 		if e.Route != "" {
